@@ -50,7 +50,7 @@ pub fn main(args: &[String]) -> i32 {
         "gen-corpus-extra" => {
             // adds the hand-scripted legacy directories to an existing corpus
             let out = args.get(1).map(std::path::PathBuf::from).unwrap_or_else(crate::ecorpus::corpus_dir);
-            match crate::ecorpus::generate_legacy_fork(&out).and_then(|_| crate::ecorpus::generate_long_history(&out)) {
+            match crate::ecorpus::generate_legacy_fork(&out).and_then(|_| crate::ecorpus::generate_long_history(&out)).and_then(|_| crate::ecorpus::generate_encoded_payloads(&out)) {
                 Ok(()) => 0,
                 Err(e) => {
                     eprintln!("gen-corpus-extra failed: {e}");
@@ -60,7 +60,7 @@ pub fn main(args: &[String]) -> i32 {
         }
         "gen-corpus" => {
             let out = args.get(1).map(std::path::PathBuf::from).unwrap_or_else(crate::ecorpus::corpus_dir);
-            match crate::ecorpus::generate(&out).and_then(|_| crate::ecorpus::generate_legacy_fork(&out)).and_then(|_| crate::ecorpus::generate_long_history(&out)) {
+            match crate::ecorpus::generate(&out).and_then(|_| crate::ecorpus::generate_legacy_fork(&out)).and_then(|_| crate::ecorpus::generate_long_history(&out)).and_then(|_| crate::ecorpus::generate_encoded_payloads(&out)) {
                 Ok(()) => 0,
                 Err(e) => {
                     eprintln!("gen-corpus failed: {e}");
@@ -702,6 +702,55 @@ fn history_fault_part(rep: &mut Report, id: &str, tier: &str) {
     }));
 }
 
+/// C14 through the real executable: what it puts on the wire for an accepted version - the
+/// X-Snapshot-Request header in particular - must be the library outcome for the configuration it
+/// was started with, the defaults included (a server started without any snapshot option, a
+/// snapshot aged across the default thresholds).
+fn c14_executable_part(rep: &mut Report, tier: &str) {
+    if !crate::ebin::server_binary().exists() {
+        rep.machinery_errors.push(format!("server binary {} not built (the ./check driver builds it)", crate::ebin::server_binary().display()));
+        return;
+    }
+    use crate::ebin::{Launch, Via};
+    let quick = tier != "thorough";
+    let base = Launch { listen: vec!["v4".into()], listen_via: Via::Flag, data_via: Via::Flag, allow: 0, allow_via: Via::Flag, versions: None, versions_via: Via::Flag, days: None, days_via: Via::Flag, log: false };
+    let mut ls = vec![base.clone(), Launch { log: true, ..base.clone() }, Launch { versions: Some(3), days: Some(2), ..base.clone() }, Launch { versions: Some(1), versions_via: Via::Env, ..base.clone() }, Launch { days: Some(0), days_via: Via::Env, ..base.clone() }];
+    if !quick {
+        ls.extend(crate::ebin::launches(true).into_iter().filter(|l| l.versions.is_some() || l.days.is_some()));
+    }
+    let tasks: Vec<Value> = ls.iter().map(|l| l.to_json()).collect();
+    let mut pool = crate::pool::Pool::spawn(threads().min(tasks.len()), "bin", &json!({"seed": seed()}));
+    let results = pool.map(&tasks);
+    drop(pool);
+    let mut nreq = 0u64;
+    for (k, r) in results.iter().enumerate() {
+        match r {
+            Ok(res) => {
+                if let Some(e) = res["error"].as_str() {
+                    rep.machinery_errors.push(e.to_string());
+                    continue;
+                }
+                nreq += res["requests"].as_u64().unwrap_or(0);
+                for f in res["findings"].as_array().cloned().unwrap_or_default() {
+                    let class = f["class"].as_str().unwrap_or("");
+                    if class == "machinery" {
+                        rep.machinery_errors.push(f["msg"].as_str().unwrap_or("").to_string());
+                    } else if class == "snapshot-targets-ignored" || class == "protocol" {
+                        rep.violations.push(Violation {
+                            property: "C14".into(),
+                            signature: format!("ebin|{class}"),
+                            message: format!("real executable, configuration {}: {}", tasks[k], f["msg"].as_str().unwrap_or("")),
+                            replay: json!({"engine": "ebin", "launch": tasks[k]}),
+                        });
+                    }
+                }
+            }
+            Err(e) => rep.machinery_errors.push(format!("bin worker: {e}")),
+        }
+    }
+    rep.cov("executable_sessions", json!({"launches": tasks.len(), "requests_over_tcp": nreq, "rule": "the executable built from /repo started without any snapshot option (and with a few), a protocol session over TCP with the snapshot aged to 2, 3, 15 and 22 days from outside: X-Version-Id and X-Snapshot-Request of every accepted version must be what the library answers for that configuration"}));
+}
+
 /// C09 under overlap: uploads of two different clients in flight on one worker, every
 /// interleaving of their chunk deliveries (the in-process service's real handlers; the order of
 /// deliveries is decided by the harness). What each client reads back must be exactly what that
@@ -865,6 +914,9 @@ fn seq_check(id: &str, tier: &str, replay: Option<&str>) -> i32 {
     if id == "C18" {
         c18_fault_part(&mut rep, tier);
     }
+    if id == "C14" {
+        c14_executable_part(&mut rep, tier);
+    }
     rep.cov("explanation", json!("every state and transition counted is an execution of the real Server / actix handler / storage code; the reference model is compared on each one"));
     rep.assume("bounded depth and alphabet as listed under coverage.runs; states with equal canonical model state are merged after their stored state was compared with the model");
     rep.assume("random version ids enter only through equality (renamed to symbols)");
@@ -879,6 +931,19 @@ fn seq_replay(id: &str, tier: &str, file: &str, runs: &[(String, SeqParams)]) ->
     let v: Value = serde_json::from_str(&s).unwrap_or(Value::Null);
     if v["replay"]["engine"] == "esize" {
         return size_replay(id, file, &v);
+    }
+    if v["replay"]["engine"] == "ebin" {
+        let l = crate::ebin::Launch::from_json(&v["replay"]["launch"]);
+        let (f, _) = crate::ebin::session(&l, seed());
+        for (class, msg) in f {
+            if format!("ebin|{class}") == v["signature"].as_str().unwrap_or("") {
+                println!("VIOLATION property={id} replay={file}");
+                println!("  {msg}");
+                return 1;
+            }
+        }
+        println!("replay of {file}: no violation of {id}");
+        return 0;
     }
     if v["replay"]["engine"] == "epayload" {
         let mut pool = crate::pool::Pool::spawn(1, "payload", &json!({"seed": seed()}));
@@ -971,7 +1036,7 @@ fn http_check(id: &str, tier: &str, replay: Option<&str>) -> i32 {
     match id {
         "C15" => {
             servers.push(("MemHttp", None, false, true));
-            servers.push(("SqlHttp", None, false, !quick));
+            servers.push(("SqlHttp", None, false, true));
             servers.push(("MemHttp", None, true, false));
             if !quick {
                 servers.push(("SqlHttp", None, true, false));
@@ -1368,6 +1433,10 @@ fn c06_check(tier: &str, replay: Option<&str>) -> i32 {
         }
         // transfers that stall between two chunks (virtual time)
         tasks.push(json!({"spec": spec, "route": "stalled", "items": [], "stalled": true}));
+    }
+    // several clients with versions on one and the same parent id
+    for spec in ["MemLib", "SqlLib", "MemHttp", "SqlHttp"] {
+        tasks.push(json!({"spec": spec, "route": "shared-parent", "items": [], "shared_parent": true}));
     }
     let mut pool = crate::pool::Pool::spawn(threads(), "payload", &json!({"seed": seed()}));
     let results = pool.map(&tasks);
